@@ -538,13 +538,17 @@ func conclude(spec *Spec, m *Merged, tier string, seed uint64, wall time.Duratio
 	for k, v := range m.Extra {
 		cov[k] = v
 	}
+	assumptions := spec.Assumptions
+	if assumptions == nil {
+		assumptions = []string{}
+	}
 	ev := map[string]any{
 		"property_id": spec.ID,
 		"tier":        tier,
 		"seed":        seed,
 		"level":       spec.Level,
 		"coverage":    cov,
-		"assumptions": spec.Assumptions,
+		"assumptions": assumptions,
 		"wall_s":      wall.Seconds(),
 		"violations":  nviol,
 	}
